@@ -119,6 +119,13 @@ class _PureModule:
 import codecs as _codecs_mod
 _CODECS = _PureModule("codecs", {"getdecoder": _codecs_mod.getdecoder, "getencoder": _codecs_mod.getencoder,
                                  "lookup": _codecs_mod.lookup})
+import re as _re_mod
+import sys as _sys_mod
+_SYS = _PureModule("sys", {"maxsize": _sys_mod.maxsize})
+_RE = _PureModule("re", {k: getattr(_re_mod, k) for k in ("search", "match", "fullmatch", "sub", "subn", "finditer", "findall",
+                                                           "split", "escape", "compile", "DOTALL", "VERBOSE", "IGNORECASE",
+                                                           "MULTILINE", "ASCII", "S", "X", "I", "M", "A")})
+
 
 SAFE_BUILTINS = {
     "dict": dict, "zip": zip, "range": range, "chr": chr, "ord": ord, "len": len, "max": max, "min": min,
@@ -126,6 +133,7 @@ SAFE_BUILTINS = {
     "frozenset": frozenset, "any": any, "all": all, "sum": sum, "enumerate": enumerate, "bool": bool,
     "repr": repr, "abs": abs, "reversed": reversed, "True": True, "False": False, "None": None,
     "isinstance": isinstance, "type": type, "hash": hash, "hasattr": hasattr, "getattr": getattr,
+    "slice": slice, "float": float, "divmod": divmod, "round": round, "iter": iter, "next": next, "map": map, "filter": filter,
     "NotImplemented": NotImplemented, "Exception": Exception, "ValueError": ValueError, "TypeError": TypeError,
     "KeyError": KeyError, "IndexError": IndexError, "AttributeError": AttributeError,
     "NotImplementedError": NotImplementedError, "UnicodeDecodeError": UnicodeDecodeError,
@@ -138,6 +146,7 @@ def _public(t):
 SAFE_METHODS = {
     str: _public(str), bytes: _public(bytes), dict: _public(dict), set: _public(set), frozenset: _public(frozenset),
     list: _public(list), tuple: _public(tuple), int: {"bit_length", "to_bytes"}, range: {"index", "count"},
+    slice: {"start", "stop", "step", "indices"}, _re_mod.Pattern: _public(_re_mod.Pattern), _re_mod.Match: _public(_re_mod.Match),
 }
 MUTATORS = {"update", "setdefault", "pop", "popitem", "clear", "add", "discard", "remove", "append", "extend", "insert",
             "sort", "reverse", "__setitem__", "__delitem__"}
@@ -237,7 +246,8 @@ class Folder:
             elif isinstance(st, ast.Import):
                 for a in st.names:
                     nm = a.asname or a.name.split(".")[0]
-                    env[nm] = itertools if a.name == "itertools" else _CODECS if a.name == "codecs" else Opaque("module %s" % a.name)
+                    env[nm] = itertools if a.name == "itertools" else _CODECS if a.name == "codecs" else \
+                        _SYS if a.name == "sys" else _RE if a.name == "re" else Opaque("module %s" % a.name)
             elif isinstance(st, (ast.Assign, ast.AnnAssign)):
                 if getattr(st, "value", None) is None:
                     return
